@@ -13,6 +13,7 @@ import (
 	"regexp"
 	"runtime"
 	"strings"
+	"time"
 )
 
 type vrtVal struct {
@@ -24,6 +25,8 @@ type vrtVal struct {
 type vrtRun struct {
 	model     map[string]vrtVal
 	tier      string
+	prop      string
+	start     time.Time
 	failed    []string
 	regions   []string
 	outcomes  []string
@@ -101,6 +104,10 @@ func vrtBound(name string, quick, thorough int) int {
 }
 
 func vrtThorough() bool { return vrtCur.tier == "thorough" }
+
+// vrtProp: is the running check the one for property id?
+func vrtProp(id string) bool { return vrtCur.prop == id }
+func vrtPropID() string      { return vrtCur.prop }
 
 // vrtSymbolic is true under the symbolic executor, false natively.
 func vrtSymbolic() bool { return false }
